@@ -23,7 +23,8 @@ RULE = ("per case 1-4 hotspot rules (mostly MetricType=Concurrency; general thre
         "error (api.TraceError before the exit, or Exit(WithError)); concurrency rules with ControlBehavior Reject or Throttling; in half of the "
         "cases `reload`s on top of the rules in force with entries alive across them (identical list, thresholds / items changed, argument "
         "position changed, behaviour / capacity changed, reordered, a twin rule added so that two new rules could reuse one old rule, a rule "
-        "dropped), occasionally a clean `load`; "
+        "or all rules of a resource dropped and re-added later, unchanged or changed), through hotspot.LoadRules (`reload`) and "
+        "hotspot.LoadRulesOfResource (`reloadres`, incl. the empty list), occasionally a clean `load`; "
         "non-trivial = some entry was blocked by the hotspot rule, some entry passed after an exit, and at least two entries with "
         "different values were alive at once; distinct by (rules, op-kind/result sequence)")
 
@@ -55,14 +56,40 @@ def gen_rule(rng, res, pool, wide=False, qps=False):
     return f"{res};{kind};{idx};{key};{thr};{pmc};{','.join(items)}"
 
 
-def mutate_rules(rng, cur, pool):
+def readd(rng, grave):
+    """a rule that was dropped earlier in the case comes back: unchanged (most of the time) or with another threshold"""
+    r = list(rng.choice(grave))
+    if rng.random() < 0.35:
+        r[4] = str(rng.choice([1, 2, 3]))
+    return r
+
+
+def mutate_rules(rng, cur, pool, grave=None):
     """a rule list for `reload`, derived from the rules in force: identical, thresholds / items changed (cells inherited),
     argument position changed, behaviour / capacity changed (fresh cells), reordered, a rule added next to its twin
     (two new rules that could both reuse one old rule), a rule dropped"""
     rs = [r.split(";") for r in cur]
+    grave = grave if grave is not None else []
     for _ in range(rng.choice([0, 1, 1, 1, 2, 3])):
+        if grave and rng.random() < 0.35:
+            # re-add rules that an earlier load dropped (all dropped rules of one resource, or one of them)
+            if rng.random() < 0.5:
+                res = rng.choice(grave)[0]
+                back = [g for g in grave if g[0] == res]
+                for g in back:
+                    rs.append(list(g))
+                    grave.remove(g)
+            else:
+                rs.append(readd(rng, grave))
+            continue
         if not rs:
             break
+        if rng.random() < 0.15 and len({r[0] for r in rs}) > 1:
+            # a whole-set load that leaves one resource without rules (the others keep theirs)
+            res = rng.choice(sorted({r[0] for r in rs}))
+            grave.extend(r for r in rs if r[0] == res)
+            rs = [r for r in rs if r[0] != res]
+            continue
         i = rng.randrange(len(rs))
         r = list(rs[i])
         m = rng.random()
@@ -93,7 +120,7 @@ def mutate_rules(rng, cur, pool):
             if len(rs) > 6:
                 rs.pop(rng.randrange(len(rs)))
         elif m < 0.88:
-            rs.pop(i)
+            grave.append(rs.pop(i))
             continue
         else:
             rng.shuffle(rs)
@@ -151,6 +178,7 @@ def gen_case(rng, cid, big=False):
     parked = []
     fb = set()
     p_reload = rng.choice([0, 0, 0, 0.02, 0.04, 0.08])     # reloads on top of the rules in force, entries alive across them
+    grave = []                                             # rules dropped by a reload (they come back later)
     p_err = rng.choice([0, 0, 0.15, 0.4])                  # entries that end with a business error
     templates = []
     p_race = rng.choice([0, 0, 0, 0.08, 0.2, 0.35])
@@ -171,10 +199,29 @@ def gen_case(rng, cid, big=False):
             ops.append(f"resume {eid}")
             ids.append(eid)
         elif rng.random() < p_reload:
-            cur = mutate_rules(rng, cur, pool)
+            if rng.random() < 0.6:
+                cur = mutate_rules(rng, cur, pool, grave)
+                ops.append(("reload " + " ".join(cur)).rstrip())
+            else:
+                # hotspot.LoadRulesOfResource: empty (the resource loses its rules), its dropped rules re-added, or its
+                # current rules mutated; the other resources are untouched
+                res = rng.choice(ress)
+                mine = [x for x in cur if x.split(";")[0] == res]
+                gone = [g for g in grave if g[0] == res]
+                m = rng.random()
+                if m < 0.3 and mine:
+                    grave.extend(x.split(";") for x in mine)
+                    new = []
+                elif gone and m < 0.75:
+                    new = mine + [";".join(g if rng.random() < 0.7 else readd(rng, [g])) for g in gone]
+                    for g in gone:
+                        grave.remove(g)
+                else:
+                    new = [x for x in mutate_rules(rng, mine or [gen_rule(rng, res, pool, wide, qps)], pool, None) if x.split(";")[0] == res]
+                cur = [x for x in cur if x.split(";")[0] != res] + new
+                ops.append(("reloadres " + res + " " + " ".join(new)).rstrip())
             if any(";q;" in x or ";t;" in x for x in cur):
                 has_qps[0] = True
-            ops.append(("reload " + " ".join(cur)).rstrip())
         elif r < p_exit and ids:
             i = rng.randrange(len(ids)) if rng.random() < 0.7 else (len(ids) - 1 if rng.random() < 0.5 else 0)
             eid = ids.pop(i)
@@ -341,7 +388,7 @@ META = {
                    "are single atomic adds). Values: int, int64, string, bool, nil (no float/NaN, "
                    "no unhashable values); QPS rules (Reject 1e9/s, Throttling 1/s queueing with MaxQueueingTimeMs 1e9) stand before/after the concurrency rules and "
                    "are inert in the model, valid for batch counts <= 5 (C05 is about them); the batch count, business errors on exit and the "
-                   "ControlBehavior of a concurrency rule are not read by any modelled step; reloads on top of rules in force follow the code's reuse "
+                   "ControlBehavior of a concurrency rule are not read by any modelled step; reloads on top of rules in force (LoadRules and LoadRulesOfResource, resources dropped and re-added) follow the code's reuse "
                    "algorithm in the executable model (reload_fresh, reload_same proved; the theorems of the property quantify over one rule set)."),
     "design_ref": "DESIGN.md 6.C06",
 }
